@@ -20,19 +20,28 @@ def _tx(t):
 
 class C16(Check):
     ID = "C16"
-    RULE = ("recovery: a fresh wallet restored from one of 6 seeds with recoveryWindow W in {1,2,5,20} runs the real "
-            "Wallet.recovery (hook VerifRecovery) against simchain chains (FilterBlocks = the real chain.BlockFilterer) built from "
-            "generated usage patterns over the 4 default scopes x 2 branches: 1-10 paying blocks with 1-4 transactions each "
+    RULE = ("recovery: a fresh wallet restored from one of 6 seeds with recoveryWindow W in {1,2,5,20} recovers against simchain chains "
+            "built from generated usage patterns over the 4 default scopes x 2 branches: 1-10 paying blocks with 1-4 transactions each "
             "(several payments per block, window-top jumps of W-1, payments to old indices, later and same-block spends of recovered "
-            "outputs with change to internal branches, irrelevant transactions), every fourth chain 2001-2300 blocks long with "
-            "activity around height 2000 (batch boundary of 2000 blocks), half of the cases interrupted at 1-2 heights and resumed on a "
-            "reopened wallet, locked or unlocked, birthday block = genesis / explicit height / located by the real search; one case in "
-            "five pays exactly one index beyond the window (only model = implementation is compared there). Observed: key counts, "
-            "presence and Used flag of every paid path and of the next three, TxDetails of every transaction, balance, unspent set, "
-            "synced-to height. birthday: 0-600 blocks with plateaus, second-level steps, steps around 2h and jumps of hours to weeks; "
-            "birthday before genesis, after the tip, on block times +-7199/7200/7201 s, random; one in twelve through a wallet's stored "
-            "birthday (creation - 48h). non-trivial = a recovery case that pays at least two different indices of some branch or spends a "
-            "recovered output, or a birthday search over at least 4 blocks; distinct by input")
+            "outputs with change to internal branches, irrelevant transactions), every fourth chain 2001-2300 blocks long with activity "
+            "around the end of the first batch (recoveryBatchSize = 2000 blocks after the first scanned one), locked or unlocked; one case "
+            "in five pays exactly one index beyond the window (only model = implementation is compared there). ENTRY: 7 in 12 through the "
+            "production start-up - Wallet.SynchronizeRPC + chain.ClientConnected, i.e. the real handleChainNotifications -> "
+            "birthdaySanityCheck -> syncWithChain(nil) -> locateBirthdayBlock, SetSyncedTo(birthday block), SetBirthdayBlock, recovery from "
+            "synced-to + 1, rollback check, rescan - on a wallet with no stored birthday block (half of them first started on a shorter "
+            "chain; further interruptions = wallet reopened, syncWithChain with the stored block); block timestamps on the 600 s grid, with "
+            "a gap of more than 4h around the birthday, or with a single block inside the 2h tolerance, so that the first block that could "
+            "pay is the one right after the birthday block; the history starts at the first payable block, inside the tolerance zone, or in "
+            "the birthday block itself (never scanned; not promised). 5 in 12 through the hook VerifRecovery on a wallet at height 0 with "
+            "birthday block genesis or an explicit height (payments after it). BACKEND: simchain's own FilterBlocks loop, or (6 in 10 of the "
+            "short and 3 in 10 of the long production-entry cases) the REAL loop of chain.BitcoindClient.FilterBlocks / "
+            "chain.RPCClient.FilterBlocks (btcd: GCS filter pre-check with buildFilterBlocksWatchList) over loopback JSON-RPC to the simulated "
+            "node; the BlockFilterer is the real one in all three. Observed: key counts, presence and Used flag of every paid path and of "
+            "the next three, TxDetails of every transaction, balance, unspent set, synced-to height, stored birthday block. birthday: 0-600 "
+            "blocks with plateaus, second-level steps, steps around 2h and jumps of hours to weeks; birthday before genesis, after the tip, "
+            "on block times +-7199/7200/7201 s, random; one in twelve through a wallet's stored birthday (creation - 48h). non-trivial = a "
+            "recovery case that pays at least two different indices of some branch or spends a recovered output, or a birthday search over "
+            "at least 4 blocks; distinct by input")
     N_QUICK = 150
     N_THOROUGH = 2500
     SHARD = 60
@@ -42,15 +51,24 @@ class C16(Check):
         "they are covered by the model and the theorems only",
         "chain well-formedness used by the theorems: transaction ids distinct, no outpoint spent twice; every paid path is a valid child",
         "uint32 wrap-around of child indices and int32 heights are outside the model; timestamps in whole seconds",
-        "a block that could pay the wallet = a block stamped later than the searched birthday + 2h (the wallet stores creation time - 48h "
-        "as its birthday, so this covers every block stamped later than creation - 46h)",
+        "a block that could pay the wallet = a block after genesis stamped later than the stored birthday + 2h (the wallet stores creation "
+        "time - 48h as its birthday, so this covers every block stamped later than creation - 46h); the located birthday block itself is "
+        "the genesis block or stamped no later than that, and production never scans it: payments in it are not promised",
+        "production entry: recoveryWindow >= 1 (with 0 syncWithChain does not recover), a verified stored birthday block (an unverified one, "
+        "set by an import, is re-located by birthdaySanityCheck: not modelled), no reorganisation between the starts (C15's subject), "
+        "block timestamps non-decreasing for the 'not late' theorem",
     ]
     PARTIAL_CLAUSES = [
         "locked or unlocked: the model has no lock state (recovery uses public derivation only); exercised by the correspondence run",
         "balance: proved for the model's unspent set (= the ledger's); that CalculateBalance(1) reports its sum is exercised, and is C01's subject",
     ]
     EXTRA_TRUSTED = ["addresses of the paid paths are derived through a second wallet of the same seed (DeriveFromKeyPath)",
-                     "simchain (programmable chain.Interface) and walletenv (fast wallet creation)"]
+                     "simchain (programmable chain.Interface: headers, hashes, best block, rescan, notifications) and walletenv (fast wallet creation)",
+                     "FilterBlocks: real = chain.BlockFilterer always; chain.BitcoindClient.FilterBlocks and chain.RPCClient.FilterBlocks "
+                     "(+ buildFilterBlocksWatchList, gcs match) with rpcclient in HTTP POST mode when the case names that backend; "
+                     "simulated = the JSON-RPC node answering getblockhash/getblock/getcfilter/getblockchaininfo/getnetworkinfo "
+                     "(simchain/rpc.go; filters built with btcutil gcs/builder), simchain's own loop otherwise; the neutrino client's loop is "
+                     "not run (same shape as btcd's, its filters come from the p2p layer)"]
 
     def gen_args(self, tier, seed):
         n = self.N_QUICK if tier == "quick" else self.N_THOROUGH
@@ -79,8 +97,19 @@ class C16(Check):
         if i["kind"] == "birthday":
             return dict(kind="birthday", blocks=len(i["ts"]), birthday_ts=i["birthday_ts"], first_ts=i["ts"][:5],
                         height=c["obs"]["height"], tags=c.get("tags"))
-        return dict(kind="recovery", w=i["w"], len=i["len"], cuts=i["cuts"], bday=i["bday"], unlocked=i["unlocked"],
+        return dict(kind="recovery", entry=i.get("entry") or "hook", backend=i.get("backend") or "simchain", w=i["w"], len=i["len"],
+                    cuts=i["cuts"], bday=i["bday"], birthday_block=c["obs"]["bday_used"], unlocked=i["unlocked"],
                     blocks=i["blocks"][:3], next=c["obs"]["next"], balance=c["obs"]["balance"], tags=c.get("tags"))
+
+    def extra_coverage(self, cases):
+        rec = [c for c in cases if c["in"]["kind"] == "recovery"]
+        sync = [c for c in rec if c["in"].get("entry") == "sync"]
+        return dict(recovery_cases=len(rec), production_entry_cases=len(sync),
+                    real_filterblocks_loop=dict(
+                        bitcoind=sum(1 for c in rec if c["in"].get("backend") == "bitcoind"),
+                        btcd=sum(1 for c in rec if c["in"].get("backend") == "btcd"),
+                        simulated=sum(1 for c in rec if not c["in"].get("backend"))),
+                    filterblocks_requests=sum(c["obs"].get("filter_calls", 0) for c in rec))
 
     # -- shrinking: greedy removal of interruptions, blocks, transactions and
     #    empty stretches, re-running the real code on every candidate
@@ -110,6 +139,17 @@ class C16(Check):
             return
         if len(i["cuts"]) > 1:
             j = copy.deepcopy(i); j["cuts"] = [i["len"]]; yield j
+        if i["blocks"]:
+            top = max(b["h"] for b in i["blocks"])
+            if top < i["len"]:
+                # cut the chain after the last active block
+                j = copy.deepcopy(i); j["len"] = top
+                j["cuts"] = sorted({min(c, top) for c in i["cuts"]} | {top})
+                if j.get("ts"):
+                    j["ts"] = j["ts"][:top + 1]
+                yield j
+        if i.get("backend"):
+            j = copy.deepcopy(i); j["backend"] = ""; yield j
         if i["unlocked"]:
             j = copy.deepcopy(i); j["unlocked"] = False; yield j
         for b in range(len(i["blocks"])):
@@ -155,10 +195,11 @@ class C16(Check):
         ids = [t["id"] for b in i["blocks"] for t in b["txs"]]
         rec = clist(["(%s, %s)" % (cN(t), cZ(h)) for t, h in zip(ids, o["recorded"])])
         uns = clist(["(%s, %s)" % (_op(u[:2]) if u[0] >= 0 else "(4294967295%N, 0%N)", cZ(u[2])) for u in o["unspent"]])
-        return ("CRec {| rc_w := %s; rc_bs := %d; rc_len := %d; rc_blocks := %s;\n    rc_cuts := %s; rc_bday := %s; "
+        return ("CRec {| rc_w := %s; rc_bs := %d; rc_len := %d; rc_blocks := %s;\n    rc_cuts := %s; rc_sync := %s; rc_ts := %s; rc_bday := %s; "
                 "rc_birthday_ts := %s; rc_err := %s; rc_init_zero := %s; rc_bday_used := %s;\n    rc_next := %s; rc_probes := %s;\n"
                 "    rc_recorded := %s; rc_balance := %s; rc_unspent := %s; rc_synced := %s |}") % (
-            cN(i["w"]), o["batch_size"], i["len"], blocks, clist([cN(x) for x in i["cuts"]]), cZ(i["bday"]),
+            cN(i["w"]), o["batch_size"], i["len"], blocks, clist([cN(x) for x in i["cuts"]]),
+            cbool(i.get("entry") == "sync"), clist([cZ(t) for t in (i.get("ts") or [])]), cZ(i["bday"]),
             cZ(i["birthday_ts"]), cbool(bool(o["err"])), cbool(o["init_zero"]), cN(o["bday_used"]),
             clist([cN(x) for x in o["next"]]), probes, rec, cZ(o["balance"]), uns, cN(max(o["synced"], 0)))
 
